@@ -1,3 +1,4 @@
+import Hannibal.Props.C11Shape
 import Hannibal.Props.C11TCurrent
 import Hannibal.Proofs.C11TProj
 import Hannibal.Props.C11CCurrent
@@ -13,3 +14,4 @@ import Hannibal.Props.C11Current
 #print axioms Hannibal.prun_run
 #print axioms Hannibal.monC11p_ok_imp_monC11t
 #print axioms Hannibal.monC11p_eq_monC11t_of_noRet
+#print axioms Hannibal.shape11_current
